@@ -6,7 +6,8 @@ from refmodel.rcell import RCell
 from .common import call, to01, tvm_bits, lib_cell_from_rcell, rcell_from_lib, struct_diff, Cell, Builder, Slice
 from .build import _rbits
 
-from pytoniq_core.tlb.vm_stack import VmStack, VmTuple, VmCont, VmControlData
+from pytoniq_core.tlb.vm_stack import VmStack, VmTuple, VmCont, VmControlData, VmStackValue
+from pytoniq_core.boc.hashmap import HashMap
 
 INTS = [0, 1, -1, 2 ** 62, 2 ** 63 - 1, 2 ** 63, 2 ** 63 + 1, -2 ** 63 + 1, -2 ** 63 - 1, 2 ** 64, 2 ** 255, 2 ** 256 - 1, -2 ** 256, 2 ** 256 - 12345, -2 ** 255]
 
@@ -54,7 +55,18 @@ def gen_cont(rng, depth):
         return {'t': t, 'cond': sub(), 'body': sub(), 'after': sub()}
     if t == 'pushint':
         return {'t': t, 'value': rng.choice([0, -1, 2 ** 31 - 1, -2 ** 31, 77]), 'next': sub()}
-    cd = {'nargs': rng.choice([None, None, 0, 1, 5, 8191]), 'cp': rng.choice([None, None, 0, -1, 1, 32767, -32768])}
+    cd = {'nargs': rng.choice([None, None, 0, 1, 5, 8191]), 'cp': rng.choice([None, None, 0, -1, 1, 32767, -32768]), 'stack': None, 'save': None}
+    if rng.random() < 0.35:
+        # saved stack (Maybe VmStack, inline) and save list (HashmapE 4 VmStackValue) of the control data; small values so that
+        # the continuation still fits one cell (4 references in all)
+        def small():
+            return rng.choice([['null'], ['int', rng.choice([0, 1, -1, 2 ** 63, -2 ** 255, rng.getrandbits(30)])], ['int', 7], ['tuple', []]])
+        if rng.random() < 0.7:
+            cd['stack'] = [small() for _ in range(rng.choice([0, 1, 1, 2, 3]))]
+            cd['stack_form'] = rng.choice(['list', 'list', 'cell'])
+        if rng.random() < 0.5:
+            cd['save'] = {str(k): small() for k in rng.sample(range(16), rng.choice([1, 1, 2, 4]))}
+            cd['save_form'] = rng.choice(['dict', 'hashmap'])
     if t == 'std':
         return {'t': t, 'cdata': cd, 'code': [_rbits(rng, rng.choice([0, 8, 40])), rng.choice([0, 1])]}
     return {'t': t, 'cdata': cd, 'next': sub()}
@@ -97,6 +109,56 @@ def build(item):
     raise AssertionError(k)
 
 
+def _vm_value_serializer(src, dest):
+    return dest.store_cell(VmStackValue.serialize(src))
+
+
+def build_cdata(v):
+    """JSON control data -> (library VmControlData, model dict).  The saved stack is given as the list of values the parser
+    returns (or pre-serialised as a cell), the save list as {register: value} (or as a HashMap over VmStackValue)."""
+    m = {'nargs': v['nargs'], 'cp': v['cp'], 'stack': None, 'save': None}
+    lstack = lsave = None
+    if v.get('stack') is not None:
+        pairs = [build(x) for x in v['stack']]
+        m['stack'] = [p[1] for p in pairs]
+        lstack = [p[0] for p in pairs]
+        if v.get('stack_form') == 'cell':
+            lstack = VmStack.serialize(lstack)
+    if v.get('save'):
+        pairs = {int(k): build(x) for k, x in v['save'].items()}
+        m['save'] = {k: p[1] for k, p in pairs.items()}
+        lsave = {k: p[0] for k, p in pairs.items()}
+        if v.get('save_form') == 'hashmap':
+            hm = HashMap(4, value_serializer=_vm_value_serializer)
+            for k, x in lsave.items():
+                hm.set_int_key(k, x)
+            lsave = hm
+    return VmControlData('vm_ctl_data', nargs=v['nargs'], stack=lstack, save=lsave, cp=v['cp']), m
+
+
+def cdata_from_model(m):
+    lstack = [build_from_model(x) for x in m['stack']] if m.get('stack') is not None else None
+    lsave = {k: build_from_model(x) for k, x in m['save'].items()} if m.get('save') else None
+    return VmControlData('vm_ctl_data', nargs=m['nargs'], stack=lstack, save=lsave, cp=m['cp'])
+
+
+def lib_norm_cdata(v):
+    st = getattr(v, 'stack', None)
+    if isinstance(st, Cell):
+        try:
+            st = VmStack.deserialize(st.begin_parse())
+        except Exception as e:
+            st = [('?', repr(e))]
+    sv = getattr(v, 'save', None)
+    if isinstance(sv, HashMap):
+        sv = dict(sv.map)
+    if sv is not None and not isinstance(sv, dict):
+        sv = {0: ('?', repr(sv))}
+    return (('cp', getattr(v, 'cp', None)), ('nargs', getattr(v, 'nargs', None)),
+            ('save', tuple(sorted((int(k), lib_norm(x)) for k, x in sv.items())) if sv else None),
+            ('stack', tuple(lib_norm(x) for x in st) if st is not None else None))
+
+
 def build_cont(c):
     t = c['t']
     lk, mk = {}, {'t': t}
@@ -107,8 +169,7 @@ def build_cont(c):
             l, m = build_cont(v)
             lk[key], mk[key] = l, m[1]
         elif key == 'cdata':
-            lk[key] = VmControlData('vm_ctl_data', nargs=v['nargs'], stack=None, save=None, cp=v['cp'])
-            mk[key] = dict(v)
+            lk[key], mk[key] = build_cdata(v)
         elif key == 'code':
             rc = RCell(v[0], [_aux(i) for i in range(v[1])])
             lk[key] = lib_cell_from_rcell(rc).begin_parse()
@@ -148,7 +209,7 @@ def lib_norm_cont(c):
         if isinstance(v, VmCont):
             out[k] = lib_norm_cont(v)
         elif isinstance(v, VmControlData):
-            out[k] = tuple(sorted({'nargs': getattr(v, 'nargs', None), 'cp': getattr(v, 'cp', None)}.items()))
+            out[k] = lib_norm_cdata(v)
         elif isinstance(v, Slice):
             out[k] = ('slice', to01(v.bits), tuple(r.hash.hex() for r in v.refs[v.ref_offset:]))
         else:
@@ -223,13 +284,13 @@ class VmWorld(HistoryWorld):
 
     def rule(self):
         return ('Each run = a history on one caller-held stack: push (null, integers around +-2^63 and +-2^256, cells, partly consumed slices, builders, tuples of length 0,1,2,3+ '
-                'nested to depth 3, continuations of every kind) interleaved with serialize, serialize-again and deserialize. Oracle per call: deep snapshot of the caller\'s values '
+                'nested to depth 3, continuations of every kind, their control data with and without nargs, cp, a saved stack and a save list) interleaved with serialize, serialize-again and deserialize. Oracle per call: deep snapshot of the caller\'s values '
                 'unchanged; two serialisations give the same cell; the cell decodes under the reference VmStack schema to the pushed values (and equals the reference encoding bit for bit '
-                'when the stack has no slice, whose window encoding is not unique); deserialize returns equal values in order. '
+                'when the stack has no slice, whose window encoding is not unique); deserialize returns equal values in order, and serialising the returned values gives the same cell again; after a serialisation the caller goes on using its builders, slices and tuples and the earlier cell must still parse to the old values. '
                 'Non-trivial = stack with a tuple of length >= 2, a 64/257-bit boundary integer or a continuation; distinct = distinct (op sequence, probe set).')
 
     def assumptions(self):
-        return ['(M) fault-free repeated-call histories', 'refmodel/vm.py written from block.tlb is the trusted base', 'carve-outs: -2^63 may use either integer form; NaN; cdata stack/save lists']
+        return ['(M) fault-free repeated-call histories', 'refmodel/vm.py written from block.tlb is the trusted base', 'carve-outs: -2^63 may use either integer form; NaN']
 
     def make_config(self, rng, leg, run_index):
         return {'steps': rng.choice([4, 8, 16, 30])}
@@ -383,6 +444,14 @@ class VmWorld(HistoryWorld):
             i = next((i for i, (a, b) in enumerate(zip(got, want)) if a != b), min(len(got), len(want)))
             kk = want[i][0] if i < len(want) and isinstance(want[i], tuple) else 'scalar'
             self.V(ctx, 'roundtrip', 'deserialize', kk, 'value #%d came back as %s, pushed %s' % (i, str(got[i] if i < len(got) else None)[:200], str(want[i] if i < len(want) else None)[:200]))
+            return
+        # equal values serialise equally: what the parser returned must be accepted by the serialiser and give the same cell
+        ok, c2 = call(VmStack.serialize, vals)
+        ctx.evaluated(1)
+        if not ok:
+            self.V(ctx, 'parsed-values-not-serialisable', 'serialize-of-parsed', klass, 'the values returned by VmStack.deserialize cannot be serialised again: %r' % (c2,))
+        elif c2.hash != cell.hash:
+            self.V(ctx, 'parsed-values-serialise-differently', 'serialize-of-parsed', klass, 'serialising the parsed values gives another cell than the one they were parsed from')
 
     def shrink_op(self, op):
         if op['op'] == 'push':
@@ -423,7 +492,7 @@ def _cont_from_model(c):
         if isinstance(v, dict) and 't' in v:
             kw[key] = _cont_from_model(v)
         elif key == 'cdata':
-            kw[key] = VmControlData('vm_ctl_data', nargs=v['nargs'], stack=None, save=None, cp=v['cp'])
+            kw[key] = cdata_from_model(v)
         elif isinstance(v, RCell):
             kw[key] = lib_cell_from_rcell(v).begin_parse()
         else:
